@@ -123,6 +123,84 @@ let rec handle (pl : string) : string =
     if !bad <> "" then "t=" ^ !bad ^ ";class=e1m:" ^ !bad
     else Printf.sprintf "t=%s;stray=%d;delivered=%d;spec=%s;class=e1m:rev%s:N%d" (Buffer.contents trace) !stray
            !delivered (bool01 (!delivered = !expected && !stray = 0)) (if rev2b then "2" else "3") n
+  | ["an3"; net; sub; uni; port; hs; pre; fr] ->
+    let f = bytes_of_hex fr in
+    let addr = ((ios sub land 15) * 16 + (ios uni land 15)) in
+    let netv = ios net land 127 in
+    (match artnet_build (nn pre) (nn port) (n_of_int addr) (n_of_int netv) f with
+     | None -> "pkt=none;sent=0;class=an3:not-sent"
+     | Some p ->
+       let hl = String.split_on_char ',' hs in
+       let all = ref true and matching = ref 0 in
+       let parts = List.mapi (fun k h ->
+         if h = "x" then begin
+           (* a disabled port keeps universe 0 of the sub-net but is not enabled: never updated *)
+           Printf.sprintf ";p%d=0:none" k end
+         else begin
+           let pa = (ios sub land 15) * 16 + (ios h land 15) in
+           let want = pa = addr in
+           if want then incr matching;
+           match artnet_handle p (n_of_int netv) (n_of_int pa) None with
+           | R2 (RHandled b) -> if not (want && b = expect_artnet f) then all := false;
+             Printf.sprintf ";p%d=1:%s" k (buf_s b)
+           | R2 RDropped -> if want then all := false; Printf.sprintf ";p%d=0:none" k
+           | _ -> all := false; Printf.sprintf ";p%d=?" k end) hl in
+       "pkt=" ^ hex_of_bytes p ^ String.concat "" parts ^ ";spec=" ^ bool01 !all
+       ^ ";class=an3:matching-ports" ^ string_of_int !matching)
+  | ["anu"; bcast; net; sub; uni; step; steps; every; fr] ->
+    let base = List.map int_of_n (bytes_of_hex fr) in
+    let addr = n_of_int ((ios sub land 15) * 16 + (ios uni land 15)) in
+    let netv = n_of_int (ios net land 127) in
+    let step = ios step and steps = ios steps and every = ios every in
+    let st = ref (None, N0) and b = ref None in
+    let trace = Buffer.create 64 in
+    let delivered = ref 0 and sends = ref 0 in
+    for k = 0 to steps do
+      if every > 0 && k mod every = 0 then begin
+        st := fst (an_tx_step (bcast = "1") N0 addr netv !st (AReply (n_of_int (k * step))));
+        Buffer.add_char trace 'R' end;
+      if k > 0 then begin
+        let f = (match base with x :: r -> List.map n_of_int (((x + k) land 255) :: r) | [] -> []) in
+        let (st', p) = an_tx_step (bcast = "1") N0 addr netv !st (ASend (n_of_int (k * step), f)) in
+        st := st'; incr sends;
+        (match p with
+         | None -> Buffer.add_char trace '-'
+         | Some p ->
+           (match artnet_handle p netv addr !b with
+            | R2 (RHandled b') -> b := b';
+              if b' = expect_artnet f then (incr delivered; Buffer.add_char trace '1') else Buffer.add_char trace '0'
+            | _ -> Buffer.add_char trace '0'))
+      end
+    done;
+    Printf.sprintf "t=%s;delivered=%d;spec=%s;class=anu:%s:reply-gap%s" (Buffer.contents trace) !delivered
+      (bool01 (!delivered = !sends)) (if bcast = "1" then "broadcast" else "unicast")
+      (if every = 0 then "-never" else if every * step <= 31 then "<=31s" else ">31s")
+  | ["e1p"; rev2; u; prios; fr] ->
+    let cid = List.map n_of_int [1;2;3;4;5;6;7;8;9;10;11;12;13;14;15;16] in
+    let name = List.map (fun c -> n_of_int (Char.code c)) ['p';'r';'i';'o'] in
+    let base = List.map int_of_n (bytes_of_hex fr) in
+    let pl = List.map ios (String.split_on_char ',' prios) in
+    let st = ref { rx_src = None; rx_active = N0; rx_buf = None } in
+    let t = ref None in
+    let trace = Buffer.create 64 in
+    let delivered = ref 0 and bad = ref "" in
+    List.iteri (fun i prio ->
+      let f = (match base with x :: r -> List.map n_of_int (((x + i) land 255) :: r) | [] -> []) in
+      let (p, t') = tx_send_r (rev2 = "1") cid name (n_of_int prio) (nn u) !t f in
+      t := t';
+      match p with
+      | None -> bad := "notsent"
+      | Some p ->
+        let ran = (match e131_rx p (nn u) true !st with
+          | SOk (st', ran) -> st := st'; ran
+          | SOob -> bad := "OOB"; false
+          | SUnmodelled -> bad := "UNMODELLED"; false) in
+        let ok = ran && (!st).rx_buf = Some f in
+        if ok then incr delivered;
+        Buffer.add_string trace ((if ok then "1:" else "0:") ^ string_of_int (int_of_n (!st).rx_active) ^ ",")) pl;
+    if !bad <> "" then "t=" ^ !bad ^ ";class=e1p:" ^ !bad
+    else Printf.sprintf "t=%s;delivered=%d;spec=%s;class=e1p:rev%s" (Buffer.contents trace) !delivered
+           (bool01 (!delivered = List.length pl)) (if rev2 = "1" then "2" else "3")
   | ["enc"; cap; fr] ->
     let f = bytes_of_hex fr in
     let cls = frame_class (List.map int_of_n f) in
